@@ -247,10 +247,20 @@ pub fn exec_mem() -> &'static mut [u8] {
 }
 
 macro_rules! jitc {
-    ($vm:expr) => {{
+    ($vm:expr) => {
+        jitc!($vm, 0usize)
+    };
+    ($vm:expr, $xoff:expr) => {{
+        // xoff: start the caller-supplied executable memory that many pages into the mapping (no_std only)
         #[cfg(not(feature = "std"))]
         {
-            let _ = $vm.set_jit_exec_memory(exec_mem());
+            let m = exec_mem();
+            let k = ($xoff as usize) * 4096;
+            let _ = $vm.set_jit_exec_memory(&mut m[k..]);
+        }
+        #[cfg(feature = "std")]
+        {
+            let _ = $xoff;
         }
         $vm.jit_compile()
     }};
@@ -272,6 +282,8 @@ pub struct RunReq {
     e: usize,
     reps: usize,
     novf: bool,
+    prev: bool,
+    xoff: usize,
 }
 
 fn parse_run(m: &HashMap<String, String>) -> RunReq {
@@ -316,6 +328,8 @@ fn parse_run(m: &HashMap<String, String>) -> RunReq {
         e: parse_i(if g("e").is_empty() { "8" } else { m.get("e").unwrap() }) as usize,
         reps: if g("reps").is_empty() { 1 } else { parse_i(&g("reps")) as usize },
         novf: g("novf") == "1",
+        prev: g("prev") == "1",
+        xoff: if g("xoff").is_empty() { 0 } else { parse_i(&g("xoff")) as usize },
     }
 }
 
@@ -374,7 +388,7 @@ fn exec_run(r: &RunReq) -> String {
                 }
                 status = match engine {
                     "interp" => fin!(vm.execute_program(mem, mbuff)),
-                    "jit" => match jitc!(vm) {
+                    "jit" => match jitc!(vm, r.xoff) {
                         Err(_) => "ERR:compile".to_string(),
                         Ok(()) => unsafe {
                             let mb: &'static mut [u8] = std::slice::from_raw_parts_mut(mbuff_p, r.mbuff.len());
@@ -402,16 +416,34 @@ fn exec_run(r: &RunReq) -> String {
                     break;
                 }
                 let m2: &'static mut [u8] = unsafe { std::slice::from_raw_parts_mut(mem_p, r.mem.len()) };
+                // prev=1: the same VM first executes on another packet (the xmem bytes), then on the real one
+                let pv: &'static mut [u8] = unsafe { std::slice::from_raw_parts_mut(xmem_p, r.xmem.len()) };
                 status = match engine {
-                    "interp" => fin!(vm.execute_program(m2)),
-                    "jit" => match jitc!(vm) {
+                    "interp" => {
+                        if r.prev {
+                            let _ = vm.execute_program(pv);
+                            rbpf::verif_hooks::set_insn_budget(r.budget);
+                        }
+                        fin!(vm.execute_program(m2))
+                    }
+                    "jit" => match jitc!(vm, r.xoff) {
                         Err(_) => "ERR:compile".to_string(),
-                        Ok(()) => unsafe { fin!(vm.execute_program_jit(m2)) },
+                        Ok(()) => unsafe {
+                            if r.prev {
+                                let _ = vm.execute_program_jit(pv);
+                            }
+                            fin!(vm.execute_program_jit(m2))
+                        },
                     },
                     #[cfg(feature = "cranelift")]
                     "cl" => match vm.cranelift_compile() {
                         Err(_) => "ERR:compile".to_string(),
-                        Ok(()) => fin!(vm.execute_program_cranelift(m2)),
+                        Ok(()) => {
+                            if r.prev {
+                                let _ = vm.execute_program_cranelift(pv);
+                            }
+                            fin!(vm.execute_program_cranelift(m2))
+                        }
                     },
                     _ => "BADENGINE".to_string(),
                 };
@@ -428,7 +460,7 @@ fn exec_run(r: &RunReq) -> String {
                 let m2: &'static mut [u8] = unsafe { std::slice::from_raw_parts_mut(mem_p, r.mem.len()) };
                 status = match engine {
                     "interp" => fin!(vm.execute_program(m2)),
-                    "jit" => match jitc!(vm) {
+                    "jit" => match jitc!(vm, r.xoff) {
                         Err(_) => "ERR:compile".to_string(),
                         Ok(()) => unsafe { fin!(vm.execute_program_jit(m2)) },
                     },
@@ -451,7 +483,7 @@ fn exec_run(r: &RunReq) -> String {
                 }
                 status = match engine {
                     "interp" => fin!(vm.execute_program()),
-                    "jit" => match jitc!(vm) {
+                    "jit" => match jitc!(vm, r.xoff) {
                         Err(_) => "ERR:compile".to_string(),
                         Ok(()) => unsafe { fin!(vm.execute_program_jit()) },
                     },
